@@ -30,8 +30,25 @@
                                        answered node-busy, at most `retry` transfers
   * send_success_is_returned         — a transfer answered OK is the result, on whichever attempt of the budget
   * send_as_shipped_retries_other_codes — the pinned send_message violates it (witness)
+
+  Record-chunk fetching above the chunk helper — get_sdr_data_helper over `_get_sdr_chunk` /
+  `_get_device_sdr_chunk` and the entries generators (`getSdrData`, `sdrList` of Model/SdrXfer.lean,
+  the model C11 uses) — over ANY transport `x` (any device, any outcome sequence), both stores, with
+  and without a caller-supplied reservation; the trace is the list of exchanges (request, response):
+
+  * fresh_reservation_data / _listing — intended variant (the renewed id is handed back by the chunk
+                                       reader, kept by the helper, passed on to the next record):
+                                       every Get (Device) SDR request carries the id returned by the
+                                       most recent Reserve of that store in the operation (the
+                                       caller's id before the first one), whatever its offset
+  * fresh_reservation_every_get      — the same, position by position (`heldAfter` of the prefix)
+  * stale_after_renewal_as_shipped   — as shipped the id obtained after a cancellation stays in the
+                                       per-chunk request: the next chunk and the next record are
+                                       sent with the cancelled id (witness; intended: fresh)
+  * data_requests_bounded            — at most 8 exchanges per chunk read
 -/
 import PyIpmi.Lemmas.Retry
+import PyIpmi.Lemmas.SdrXferFresh
 import PyIpmi.Gen.Loops11
 namespace PyIpmi.Props.C13
 open PyIpmi PyIpmi.Model.Retry
@@ -228,5 +245,115 @@ example : (runSend K .intended 3 ⟨[.nodeBusy], .completed⟩).1.trace = [.xfer
     (runSend K .intended 3 ⟨[.nodeBusy], .completed⟩).2 = .ok () := by decide
 
 example : (runSend K .intended 3 ⟨[], .nodeBusy⟩).2 = .retryError := by decide
+
+/-! ### record-chunk fetching above the chunk helper: the most recently obtained reservation -/
+
+section sdr
+open PyIpmi.Model.SdrXfer PyIpmi.Spec.Sdr
+open PyIpmi.Gen.Loops11 (xconsts)
+
+/-- the intended variant: both repairs of C11 and the renewed id handed on -/
+theorem intended_variant : Variant.intended.staleRes = false ∧ ∀ s, Variant.intended.renew s = s :=
+  ⟨rfl, fun s => by cases s <;> rfl⟩
+
+/-- **get_repository_sdr / get_device_sdr.**  For EVERY transport `x` (any device, any sequence of
+outcomes), either store, any record id, with a caller-supplied reservation `r` (`res? = some r`) or
+without (`none`; then `cur0` is irrelevant: the operation starts with its own Reserve): in the
+exchange trace of the read every Get (Device) SDR request - header read, chunks, repeats after
+C3h / C5h / CEh / CAh - carries the reservation id held at that point. -/
+theorem fresh_reservation_data {σ : Type} (x : Xport σ) (dev : σ) (s : Store) (id : Nat) (res? : Option Nat)
+    (cur0 : Nat) :
+    freshTrace s (res?.getD cur0)
+      (getSdrData K xconsts Variant.intended (traced x) s (dev, []) id res?).1.2 = true := by
+  obtain ⟨res', h, _⟩ := getSdrDataR_fresh x Variant.intended intended_variant.1 s (intended_variant.2 s)
+    (dev, []) id res? cur0
+  exact h.fresh rfl
+
+/-- **sdr_repository_entries / device_sdr_entries / get_*_sdr_list.**  The same over a whole listing:
+the id a read ends with is the one the next record is requested with. -/
+theorem fresh_reservation_listing {σ : Type} (x : Xport σ) (dev : σ) (s : Store) (fuel : Nat) (cur0 : Nat) :
+    freshTrace s cur0 (sdrList K xconsts Variant.intended (traced x) s fuel (dev, [])).1.2 = true := by
+  obtain ⟨res', h⟩ := sdrList_fresh x Variant.intended intended_variant.1 s (intended_variant.2 s) fuel (dev, []) cur0
+  exact h.fresh rfl
+
+/-- Position by position: the Get at index `i` of the trace carries (in its 16-bit field) the id
+returned by the last Reserve of that store among the exchanges before it - `heldAfter` of the
+prefix; the caller's id when there is none.  In particular every partial read (offset ≠ 0). -/
+theorem fresh_reservation_every_get {σ : Type} (x : Xport σ) (dev : σ) (s : Store) (id : Nat) (res? : Option Nat)
+    (fuel : Nat) (cur0 : Nat) (i res rid off cnt : Nat) (a : Rsp) :
+    ((getSdrData K xconsts Variant.intended (traced x) s (dev, []) id res?).1.2[i]? = some (.get s res rid off cnt, a) →
+      res = heldAfter s (res?.getD cur0)
+        ((getSdrData K xconsts Variant.intended (traced x) s (dev, []) id res?).1.2.take i) % 65536) ∧
+    ((sdrList K xconsts Variant.intended (traced x) s fuel (dev, [])).1.2[i]? = some (.get s res rid off cnt, a) →
+      res = heldAfter s cur0 ((sdrList K xconsts Variant.intended (traced x) s fuel (dev, [])).1.2.take i) % 65536) :=
+  ⟨freshTrace_get (fresh_reservation_data x dev s id res? cur0) i res rid off cnt a,
+   freshTrace_get (fresh_reservation_listing x dev s fuel cur0) i res rid off cnt a⟩
+
+/-- what `heldAfter` computes: the id of the last Reserve of the store that was answered with one -/
+example : heldAfter .repo 7 [(.reserve .repo, .reserved 8), (.get .repo 8 1 0 5, .err 0xC5), (.reserve .dev, .reserved 3),
+    (.reserve .repo, .err 0xC3), (.reserve .repo, .reserved 9)] = 9 ∧
+    heldAfter .repo 7 [(.get .repo 7 1 0 5, .data 2 [])] = 7 := by decide
+
+/-- as the tree stands after the C11 repairs: the renewed id is still dropped -/
+def staleVariant : Variant := { Variant.intended with staleRes := true }
+
+/-- a 30-byte record (header + 20 + 5) and a 10-byte one -/
+def recP : List Nat := [1, 0, 0x51, 0xC0, 25] ++ (List.range 25).map (· + 1)
+def recQ : List Nat := [2, 0, 0x51, 0xC0, 5, 9, 8, 7, 6, 5]
+
+/-- outcome sequence "completed, reservation cancelled, then completed for ever" -/
+def onceCancelled : ScriptDev := ⟨⟨[.completed, .resCancelled], .completed⟩, 0, [recP, recQ]⟩
+
+/-- **As shipped.**  One cancellation (the second Get is answered C5h): the chunk helper renews
+(id 2) and repeats the chunk with it - and the next chunk is sent with the cancelled id 1 again; in
+a listing so is every request of the following record.  Both reads return the right bytes: only the
+trace shows it (on a device, each of those requests costs C5h, a sleep and one more Reserve).  The
+intended variant sends id 2 from the renewal on. -/
+theorem stale_after_renewal_as_shipped :
+    (getSdrData K xconsts staleVariant (traced scriptX) .repo (onceCancelled, []) 1 none).1.2.map Prod.fst =
+      [.reserve .repo, .get .repo 1 1 0 5, .get .repo 1 1 5 20, .reserve .repo, .get .repo 2 1 5 20, .get .repo 1 1 25 5] ∧
+    freshTrace .repo 0 (getSdrData K xconsts staleVariant (traced scriptX) .repo (onceCancelled, []) 1 none).1.2 = false ∧
+    (getSdrData K xconsts Variant.intended (traced scriptX) .repo (onceCancelled, []) 1 none).1.2.map Prod.fst =
+      [.reserve .repo, .get .repo 1 1 0 5, .get .repo 1 1 5 20, .reserve .repo, .get .repo 2 1 5 20, .get .repo 2 1 25 5] ∧
+    ((sdrList K xconsts staleVariant (traced scriptX) .dev 3 (onceCancelled, [])).1.2.map Prod.fst).drop 6 =
+      [.get .dev 1 2 0 5, .get .dev 1 2 5 5] ∧
+    ((sdrList K xconsts Variant.intended (traced scriptX) .dev 3 (onceCancelled, [])).1.2.map Prod.fst).drop 6 =
+      [.get .dev 2 2 0 5, .get .dev 2 2 5 5] ∧
+    (sdrList K xconsts staleVariant (traced scriptX) .dev 3 (onceCancelled, [])).2 = .ok [recP, recQ] ∧
+    (sdrList K xconsts Variant.intended (traced scriptX) .dev 3 (onceCancelled, [])).2 = .ok [recP, recQ] := by
+  decide
+
+/-- the id obtained by a renewal that is followed by "cannot return number of requested bytes" is
+not lost either: the CompletionCodeError carries it (the refused 20-byte read was sent with the new
+id 2, so is the 16-byte one that follows) -/
+example : (getSdrData K xconsts Variant.intended (traced scriptX) .repo
+      (⟨⟨[.completed, .resCancelled, .other 0xCA], .completed⟩, 0, [recP]⟩, []) 1 none).1.2.map Prod.fst =
+    [.reserve .repo, .get .repo 1 1 0 5, .get .repo 1 1 5 20, .reserve .repo, .get .repo 2 1 5 20, .get .repo 2 1 5 16,
+     .get .repo 2 1 21 9] := by decide
+
+/-- a caller-supplied reservation is what the requests carry until the first renewal -/
+example : (getSdrData K xconsts Variant.intended (traced scriptX) .repo (onceCancelled, []) 2 (some 700)).1.2.map Prod.fst =
+    [.get .repo 700 2 0 5, .get .repo 700 2 5 5, .reserve .repo, .get .repo 1 2 5 5] := by decide
+
+/-- **Bounded.**  Whatever the device answers, a record read issues at most 161 requests: its own
+Reserve, then the header read and up to 19 chunk reads of at most 4 Gets and 4 renewals each (either
+variant, either store; a listing is that per record). -/
+theorem data_requests_bounded {σ : Type} (x : Xport σ) (dev : σ) (v : Variant) (s : Store) (id : Nat) (res? : Option Nat) :
+    (getSdrData K xconsts v (traced x) s (dev, []) id res?).1.2.length ≤ 161 := by
+  obtain ⟨ext, h, hl⟩ := getSdrDataR_grows x v s (dev, []) id res?
+  have h' : (getSdrData K xconsts v (traced x) s (dev, []) id res?).1.2 = ext := by
+    show (getSdrDataR K xconsts v (traced x) s (dev, []) id res?).1.2 = ext
+    simpa using h
+  rw [h']
+  exact hl
+
+/-- … and a device that cancels every reservation makes the read end in RetryError after the header
+read and 4 Gets + 4 renewals of the first chunk (never a hang) -/
+example : (getSdrData K xconsts Variant.intended (traced scriptX) .repo
+      (⟨⟨[.completed], .resCancelled⟩, 0, [recP]⟩, []) 1 none).2 = .retryError ∧
+    (getSdrData K xconsts Variant.intended (traced scriptX) .repo
+      (⟨⟨[.completed], .resCancelled⟩, 0, [recP]⟩, []) 1 none).1.2.length = 10 := by decide
+
+end sdr
 
 end PyIpmi.Props.C13
